@@ -327,7 +327,7 @@ class ConnGen:
             k = d.int(0, 6)
             if k == 0: args.append(['int', v])
             elif k == 1: args.append(['uint', v])
-            elif k == 2: args.append(['fixed', v * 256 if d.chance(0.7) else v * 256 + 128])
+            elif k == 2: args.append(['fixed', 0 if d.chance(0.3) else (v * 256 if d.chance(0.7) else v * 256 + 128)])
             elif k == 3: args.append(['fd', v])
             elif k == 4: args.append(['str', str(v) if d.chance(0.7) else d.choice(['nil', '7.0', 'wl_x'])])
             elif k == 5:
@@ -392,6 +392,27 @@ class ConnGen:
             return self.step_bind(d, iface='xdg_toplevel')
         return dict(sent=self.sent(False), iface='xdg_toplevel', id=tl, name='set_app_id', args=[['str', d.choice(['a', 'b', 'B', 'c', 'C', 'd'])]])
 
+    def step_arrays(self, d):
+        """a message with a non-empty array argument (GDB mode decodes the elements; some are enum-typed)"""
+        P = protocols()
+        cands = []
+        for oid, iface in sorted(self.live.items()):
+            pi = P.get(iface)
+            if pi is None:
+                continue
+            for m in pi.msgs:
+                if any(a.type == 'array' for a in m.args) and all(a.type not in ('object', 'new_id') or (a.type == 'object' and a.allow_null) for a in m.args):
+                    cands.append((oid, iface, m))
+        if not cands:
+            return self.step_bind(d, iface=d.choice(['xdg_toplevel', 'xdg_toplevel', 'zwlr_foreign_toplevel_handle_v1', 'zxdg_toplevel_v6', 'wl_keyboard']))
+        oid, iface, pm = d.choice(cands)
+        m = self._protocol_message(d, oid, iface, pm)
+        if m is not None:
+            for a in m['args']:
+                if a[0] == 'array':
+                    a[1] = d.choice([4, 8, 12, 16, 24])
+        return m
+
     def step_deep_reuse(self, d):
         """delete and re-create the same client id (towards incarnation letters beyond z)"""
         pool = sorted(i for i in self.dead if i < SERVER_BASE and i not in self.live)
@@ -426,6 +447,7 @@ class ConnGen:
         elif kind == 'newer': m = self.step_newer(d)
         elif kind == 'nulls': m = self.step_nulls(d)
         elif kind == 'appid': m = self.step_appid(d)
+        elif kind == 'arrays': m = self.step_arrays(d)
         elif kind == 'sync': m = self.step_sync(d)
         elif kind == 'first' and 2 not in self.live and 2 not in self.dead: m = self.step_first(d)
         if m is None:
@@ -453,7 +475,7 @@ def history(d, nconn=None, nmsg=None, tagged=None, profile=None, t0=None, gaps=N
     conns = [ConnGen(tags[k], d.choice(['client', 'server']), profile) for k in range(nconn)]
     t = t0 if t0 is not None else d.choice([0, 1000, 123456789, 4_000_000_000, d.int(0, 4_000_000_000)])
     out = []
-    burst0 = d.int(1, 6) if d.chance(0.2) else 0       # several messages carrying the very time of the first one
+    burst0 = d.int(1, 6) if d.chance(0.3) else 0       # several messages carrying the very time of the first one
     for k in range(nmsg):
         c = d.choice(conns)
         if k > 0 and k > burst0:
